@@ -5,7 +5,7 @@
 (* final answer, validated against XtDetect (and through it XtInput).        *)
 (* Further records bind detection to translation (C09 transparency) and to   *)
 (* xt's own output (C10).                                                    *)
-EXTENDS XtDetect, Json, IOUtils, TLCExt
+EXTENDS XtDetect, Json, IOUtils, TLCExt, FiniteSets
 
 Rec == ndJsonDeserialize(IOEnv.TRACE)
 
@@ -90,7 +90,9 @@ T_Result ==
      /\ IF cur_id \in DOMAIN memo
         THEN (On("C09") /\ xlates /\ r # "ioerr" /\ memo[cur_id] # "ioerr") => memo[cur_id] = r
         ELSE TRUE
-     /\ memo' = IF cur_id \in DOMAIN memo \/ r = "ioerr" THEN memo ELSE (cur_id :> r) @@ memo
+     \* (the supplies of one input are recorded next to each other: the memory keeps the most recent 64 inputs)
+     /\ memo' = IF cur_id \in DOMAIN memo \/ r = "ioerr" THEN memo
+                ELSE IF Cardinality(DOMAIN memo) >= 64 THEN (cur_id :> r) ELSE (cur_id :> r) @@ memo
   /\ UNCHANGED <<vars, trial, cur_id, xlates>>
 
 \* C09 transparency: translate(None) behaves exactly like translate(Some(detected)).
